@@ -347,6 +347,10 @@ func (e *UnaryOpExpr) Value(ctx *hcl.EvalContext) (cty.Value, hcl.Diagnostics) {
 		return cty.UnknownVal(e.Op.Type), diags
 	}
 
+	// The function call does not preserve the marks of an unknown operand,
+	// so we handle the marks here as BinaryOpExpr does.
+	val, valMarks := val.Unmark()
+
 	args := []cty.Value{val}
 	result, err := impl.Call(args)
 	if err != nil {
@@ -362,7 +366,7 @@ func (e *UnaryOpExpr) Value(ctx *hcl.EvalContext) (cty.Value, hcl.Diagnostics) {
 		return cty.UnknownVal(e.Op.Type), diags
 	}
 
-	return result, diags
+	return result.WithMarks(valMarks), diags
 }
 
 func (e *UnaryOpExpr) Range() hcl.Range {
